@@ -1664,6 +1664,12 @@ class Interp:
         f_it = fname(itt)
         if f_it in ("range", "prange"):
             elem: Any = lv
+        elif f_it == "enumerate" and fname(itt.args[0]) == "range" and len(itt.args) == 1 and len(itt.args[0].args) in (1, 2):
+            # enumerate(range(a, b)): the loop symbol is the value, the counter is value - a
+            inner = itt.args[0]
+            a0 = inner.args[0] if len(inner.args) == 2 else sp.Integer(0)
+            elem = (lv - a0, lv)
+            itt = inner
         elif f_it == "enumerate":
             elem = (lv, self.lib.term_getitem(self, itt.args[0], lv, env, st))
         elif f_it == "zip":
